@@ -15,13 +15,17 @@ from symex import show, walk
 EXPLANATION = __doc__
 TRUSTED = ["rustc / extractor", "SHA-1 collision resistance"]
 NOT_DECIDED = ["remap_pin_grid produces a permutation determined by seed mod 10!", "pin_to_bytes produces the decimal digits", "the position lookup's unwrap() never fails"]
-FLOORS = {"transcript": 1, "gate": 1, "wrapper": 3}
+FLOORS = {"transcript": 1, "gate": 1, "wrapper": 3, "digits": 3, "layout": 3}
 HF = "pin::calculate_hash"
 VF = "pin::verify_client_pin_hash"
 
 
 def check(ctx, rep):
     fb = ctx.fb
+    from rules import algos
+
+    algos.pin_to_bytes_rule(ctx, rep, "digits")
+    algos.remap_pin_grid_rule(ctx, rep, "layout")
     se = ctx.wrap.run(HF)
     if se is None:
         rep.violation("transcript", HF, "anchor", "function not found")
